@@ -176,7 +176,24 @@ func VHC18Shapes() {
 	s1 := vh.Bytes("s1", 1)
 	s2 := vh.Bytes("s2", 2)
 	doc := map[string]any{"a": s1, "b": s2, "n": 4.5}
-	switch vh.Choose("shape", 12) {
+	switch vh.Choose("shape", 14) {
+	case 13:
+		// widths count bytes, also for text with multi-byte characters
+		u := []string{"n\u00e9", "\u65e5\u672c", "\U0001F600"}[vh.Choose("mb", 3)]
+		doc["u"] = u
+		_, k, out := evalExpr("printf('%5s|%-5v|%05s|%2s', $.u, $.u, $.u, $.u)", doc)
+		vh.Assert(k == OK && out == c18Pad(u, 5, false)+"|"+c18Pad(u, -5, false)+"|"+c18Pad(u, 5, true)+"|"+u, "C18: a width is a number of bytes, also for multi-byte text")
+	case 12:
+		// widths around every power of two an implementation might wrap at
+		w := []string{"65537", "2147483648", "4294967296", "4294967303", "9223372036854775807", "9223372036854775815", "18446744073709551616", "18446744073709551623", "99999999999999999999", "340282366920938463463374607431768211463"}[vh.Choose("hugew", 10)]
+		flag := []string{"", "-", "0"}[vh.Choose("hugef", 3)]
+		verb := []string{"s", "v", "f"}[vh.Choose("hugev", 3)]
+		arg := "$.a"
+		if verb == "f" {
+			arg = "$.n"
+		}
+		_, k, out := evalExpr("printf('x%"+flag+w+verb+"', "+arg+")", doc)
+		vh.Assert(k == ErrRuntime && out == "", "C18: a width beyond 65536 is an error and writes nothing, however many digits it has: "+flag+w)
 	case 0:
 		_, k, out := evalExpr("printf('%s|%s', $.a, $.b)", doc)
 		vh.Assert(k == OK && out == s1+"|"+s2, "C18: directives consume arguments in order")
